@@ -821,6 +821,8 @@ struct Lower {
       if (q == "memmove" || q == "std::memmove" || q == "__builtin_memmove") return "memmove(" + arglist() + ")";
       if (q == "memset" || q == "std::memset" || q == "__builtin_memset") return "memset(" + arglist() + ")";
       if (q == "memcmp" || q == "std::memcmp" || q == "__builtin_memcmp") return "memcmp(" + arglist() + ")";
+      if (q == "strlen" || q == "std::strlen" || q == "__builtin_strlen") return "strlen(" + arglist() + ")";
+      if (q == "memchr" || q == "std::memchr" || q == "__builtin_memchr" || q == "__builtin_char_memchr") return "memchr(" + arglist() + ")";
       if (q == "std::move" || q == "std::forward" || q == "std::addressof" || q == "std::__addressof" || q == "std::move_if_noexcept") {
         std::string a = ex(CE2->getArg(0), cx);
         return (q == "std::addressof" || q == "std::__addressof") ? "(&" + a + ")" : a;
